@@ -86,6 +86,13 @@ func (f *Filer) Open(info types.SegmentInfo) (types.SegmentReader, error) {
 	if err != nil {
 		return nil, err
 	}
+	// The caller only gets something to Close if we succeed.
+	opened := false
+	defer func() {
+		if !opened {
+			rf.Close()
+		}
+	}()
 
 	// Validate header here since openReader is re-used by writer where it's valid
 	// for the file header not to be committed yet after a crash so we can't check
@@ -112,7 +119,12 @@ func (f *Filer) Open(info types.SegmentInfo) (types.SegmentReader, error) {
 		return nil, err
 	}
 
-	return openReader(info, rf, &f.bufPool)
+	r, err := openReader(info, rf, &f.bufPool)
+	if err != nil {
+		return nil, err
+	}
+	opened = true
+	return r, nil
 }
 
 // List returns the set of segment IDs currently stored. It's used by the WAL
